@@ -60,7 +60,7 @@ class C02(Prop):
         cases = []
         for i in range(n):
             native = rng.random() < 0.4
-            bad_rate = 0.0 if rng.random() < 0.75 else rng.choice([0.1, 0.3])
+            bad_rate = 0.0 if rng.random() < 0.65 else rng.choice([0.1, 0.3, 0.5])
             if i % 20 == 7:
                 rows, exp = S.gen_staggered_grid(rng, native=native)    # transposed, a gap in every column
             else:
